@@ -34,6 +34,10 @@ def run(chk, F):
     chk.guard("ladder-vs-manual", "parser", lambda: ladder(chk, F))
     chk.guard("operator-routing", "wrappers", lambda: routing(chk, F))
     chk.guard("literal-digits", "lexer", lambda: digits(chk, F))
+    import castaudit
+    chk.guard("no-silent-wrap", "cast audit", lambda: castaudit.run(chk, F, "C01"))
+    chk.floor("no-silent-wrap", 15, "(narrowing casts / machine shifts in the arithmetic, lexer and evaluator files)")
+    chk.assume("in-memory digit counts and string lengths are below 2^32 (size assumption used by four cast justifications)")
 
 
 def op_impl(ty, op, method, rhs=None):
@@ -140,8 +144,17 @@ def undefined(chk, F):
     # integer / magnitude gates for pow, shl, shr
     for name, acts in (("pow", (NUM + "powi",)), ("shl", ("BigInt::pow",)), ("shr", ("BigInt::pow",))):
         fn = F.find(CORE, NUM + name)
-        actions = k2.call_blocks(fn, *acts) + k2.call_blocks(fn, "types::bigint::BigInt::as_int")
-        actions = [a for a in actions]
+        direct = k2.call_blocks(fn, *acts)
+        if not direct:
+            # the operation may have been moved into a local helper: a call whose callee reaches it counts as the action
+            G = cg.get(F)
+            for bb, t in fn.calls():
+                cid = t.get("callee", {}).get("id")
+                if cid in F.fns and cid != fn.id:
+                    sub = G.reachable([F.fns[cid]])
+                    if any(k2.call_blocks(F.fns[x], *acts) for x in sub if F.fns[x].crate == CORE):
+                        direct.append(bb)
+        actions = direct + k2.call_blocks(fn, "types::bigint::BigInt::as_int")
 
         def mag(kind, ap, info):
             if kind != "bool":
@@ -162,7 +175,7 @@ def undefined(chk, F):
                 if r[0] == "call" and r[1] in ("<types::bigint::BigInt as core::cmp::PartialEq>::ne", "<types::bigint::BigInt as core::cmp::PartialEq>::eq") and "to_rational" in ap_str(ap):
                     return {"false"} if r[1].endswith("::ne") else {"true"}
                 return None
-            k2.gate_rule(chk, fn, "undefined-is-error", "rink_core::Number::" + name, "integer-shift-count", k2.call_blocks(fn, *acts), integer,
+            k2.gate_rule(chk, fn, "undefined-is-error", "rink_core::Number::" + name, "integer-shift-count", direct, integer,
                          "the shift is computed only for an integer count (den == 1)", "%s accepts a non-integer shift count" % name)
     # bit operators: only on as_bigint Some values of both operands
     for name, sym in (("and", "BitAnd"), ("or", "BitOr"), ("xor", "BitXor")):
@@ -340,7 +353,8 @@ def digits(chk, F):
                 ok = len(pushes) == 1 and "next()" in H.expr_str(pushes[0]["args"][0])
                 chk.decide(ok, "literal-digits", "rink_core::text_query lexer", "digit-arm-pushes", "%s:%d" % (fn.file, a["line"]),
                            "a consumed digit is pushed into the literal buffer", "a digit arm of the number lexer consumes a character without pushing it (`%s`): the literal is parsed one digit short" % txt)
-            elif kinds == {"sep"}:
-                chk.decide(not pushes, "literal-digits", "rink_core::text_query lexer", "separator-arm-discards", "%s:%d" % (fn.file, a["line"]), "digit separators are dropped", "a separator arm pushes into the buffer")
+            elif "sep" in kinds:
+                # (also a mixed digit|separator arm: whatever it does is wrong for one of the two kinds)
+                chk.decide(not pushes and kinds == {"sep"}, "literal-digits", "rink_core::text_query lexer", "separator-arm-discards", "%s:%d" % (fn.file, a["line"]), "digit separators are dropped", "an arm that matches a digit separator (`_`, U+2009) pushes it into the literal buffer (`%s`): the separator is counted as a digit position" % txt)
     if n < 8:
         chk.anchor_lost("literal-digits", "rink_core::text_query lexer", "only %d digit/separator arms recognised in the number lexer (expected >= 8)" % n)
